@@ -154,7 +154,7 @@ func TestVerifC05(t *testing.T) {
 		if cut {
 			w.Sample(level, s, maxRuns, rng.Intn)
 		}
-		w.Comment(fmt.Sprintf("scenario %s threads=%d schedules=%d truncated=%v", s.Name, len(s.Threads), n, cut))
+		w.Count(s, n, cut)
 	}
 	// sequential replays around the TTL (clock control: miniredis)
 	for _, dt := range []int{899, 900, 901, 1 + rng.Intn(1800)} {
